@@ -94,7 +94,7 @@ Definition ex_cfg : cfg := mkCfg 3 (bs "HTTP/1.1 200 Connection established") 10
 Definition ex_ev (cr cw ur uw : bool) (cs : outcome) (crv urv : recv_res) (rq : req_outcome) : event :=
   mkEvent 5 cr cw ur uw cs (Accept 100) crv urv rq DNothing.
 Definition ex_events : list event :=
-  [ ex_ev true false false false (Accept 100) (RData (bs "CONNECT h:443 HTTP/1.1")) ROsErr (RProxy true []);
+  [ ex_ev true false false false (Accept 100) (RData (bs "CONNECT h:443 HTTP/1.1")) ROsErr (RProxy true [] []);
     ex_ev false true true false (Accept 2) ROsErr (RData [0; 255; 13; 10; 7]) RIncomplete;
     ex_ev true true true true WouldBlock (RData [1; 2; 3; 4]) (RData [9]) RIncomplete;
     ex_ev false true false true (Accept 100) ROsErr ROsErr RIncomplete ].
